@@ -215,6 +215,8 @@ M("request_dispatch_ignores_unsubscribe", ["C12"], "D53 reverted: the request di
 M("request_over_live_ca_list", ["C14"], "D54 reverted (J1939-21): requests dispatched over the live CA list",
   ("j1939/j1939_21.py", "            for ca in list(self._cas):\n                if ca.message_acceptable(dest_address):\n                    ca._process_request(",
    "            for ca in self._cas:\n                if ca.message_acceptable(dest_address):\n                    ca._process_request("))
+M("dm1_no_state_check_after_data_callback", ["C13"], "D55 reverted: the CA state is not looked at again after the data callback",
+  ("j1939/diagnostic_messages.py", "            # the address was lost while the data callback was running\n            return True\n", "            pass\n"))
 M("dm1_notify_rereads_attributes", ["C16"], "D49 reverted: _notify_subscribers re-reads the attributes for every subscriber",
   ("j1939/diagnostic_messages.py", "            callback(sa, lamp_status.copy(), [dict(dtc_dic) for dtc_dic in dtc_dic_list], timestamp)",
    "            callback(sa, self._lamp_status.copy(), [dict(dtc_dic) for dtc_dic in self._dtc_dic_list], timestamp)"))
